@@ -160,7 +160,13 @@ func (x *Ctx) resolveCas(op *GenOp) uint64 {
 		return 777
 	case "sibkey":
 		// the current CAS of the other key of the same collection
-		other := map[string]string{"k1": "k2", "k2": "k1"}[op.Key]
+		// (the driver's keys are the model's key names plus a per-path suffix)
+		other := op.Key
+		if strings.HasPrefix(op.Key, "k1") {
+			other = "k2" + op.Key[2:]
+		} else if strings.HasPrefix(op.Key, "k2") {
+			other = "k1" + op.Key[2:]
+		}
 		if o := x.known(op.Coll, other); o.cur != 0 && o.cur != ki.cur {
 			return o.cur
 		}
